@@ -210,6 +210,9 @@ func c14Fields(c *Ctx) {
 		}
 		for _, r := range liveReturns(tg) {
 			for _, lf := range w.Leaves(r.Results[0], r) {
+				if cv, ok := lf.Val.(*ssa.Call); ok && calleeName(cv) == "encoding/hex.EncodeToString" && len(cv.Call.Args) == 1 && w.canon(tg, cv.Call.Args[0]) == w.canon(tg, buf) {
+					okFmt = true // the same ten lower-case hex digits
+				}
 				if cv, ok := lf.Val.(*ssa.Call); ok && calleeName(cv) == "fmt.Sprintf" {
 					if format, ok := strConst(cv.Call.Args[0]); ok && format == "%x" {
 						if sl, ok := cv.Call.Args[1].(*ssa.Slice); ok {
@@ -244,10 +247,32 @@ func c14Fields(c *Ctx) {
 				idx = call.Value()
 			}
 		}
+		// or: before, after, _ := strings.Cut(s, ".")
+		var cut *ssa.Call
+		for _, call := range callsTo(vu, "strings.Cut") {
+			if s, ok := strConst(call.Common().Args[1]); ok && s == "." && w.Expr(call.Common().Args[0]) == "p0" {
+				cut, _ = call.(*ssa.Call)
+			}
+		}
 		var maj, min ssa.Value
 		for _, call := range callsTo(vu, "strconv.ParseUint") {
 			cv := call.(*ssa.Call)
 			bits, _ := intConst(cv.Call.Args[2])
+			if ex, isEx := w.canon(vu, cv.Call.Args[0]).(*ssa.Extract); isEx && cut != nil && ex.Tuple == ssa.Value(cut) && bits == 16 {
+				switch ex.Index {
+				case 0:
+					maj = extractOf(cv, 0)
+					okParse++
+				case 1:
+					min = extractOf(cv, 0)
+					okParse++
+				}
+				if idx == nil {
+					idx = cut
+				}
+				c.Check(w.ErrEdgeEnds(vu, extractOf(cv, 1)), "R5.version", "version.Unmarshal|"+w.Short(cv.Call.Args[0])+" parse error returned", w.Pos(cv.Pos()), "error edge returns", "a number that does not fit 16 bits is not refused")
+				continue
+			}
 			sl, ok := cv.Call.Args[0].(*ssa.Slice)
 			if !ok || bits != 16 || w.Expr(sl.X) != "p0" {
 				continue
